@@ -477,9 +477,13 @@ impl JitCompiler {
         self.emit_push(mem, map_register(7));
         self.emit_push(mem, map_register(8));
         self.emit_push(mem, map_register(9));
+        // Fifth push: keeps RSP 16-byte congruent across local calls (4 pushes + return
+        // address would flip it) and preserves the packet pointer.
+        self.emit_push(mem, R10);
         // 0xe8 is the opcode for a CALL
         self.emit1(mem, 0xe8);
         self.emit_jump_offset(mem, target_pc);
+        self.emit_pop(mem, R10);
         self.emit_pop(mem, map_register(9));
         self.emit_pop(mem, map_register(8));
         self.emit_pop(mem, map_register(7));
@@ -945,9 +949,13 @@ impl JitCompiler {
                             // updated later, but not created after compiling (we need the address of the
                             // helper function in the JIT-compiled program).
                             if let Some(helper) = helpers.get(&(insn.imm as u32)) {
+                                // R10 (packet pointer) is caller-saved in the C ABI: save it
+                                // around the call. The push also realigns RSP to 16 bytes.
+                                self.emit_push(mem, R10);
                                 // We reserve RCX for shifts
                                 self.emit_mov(mem, R9, RCX);
                                 self.emit_call(mem, *helper as usize);
+                                self.emit_pop(mem, R10);
                             } else {
                                 Err(Error::other(
                                     format!(
